@@ -199,3 +199,26 @@ func c18DED(maxBlocks int) {
 	}
 	c18CertEq(&d, &c, "C18: certificate decode-encode-decode")
 }
+
+// C11: a certificate stream cut at ANY position (it arrives inside intent
+// messages on an authorization-grant tube) yields an error, never a panic.
+//
+//verif:prop C11
+//verif:bounds stream cut at 28 positions covering the inside and both edges of every field of a certificate with up to two short names, all bytes symbolic, chunk length field from {2,6,10}
+//verif:cover error;parsed
+//verif:timeout 600
+func VH_C11_certificate_readfrom_truncated_anywhere() {
+	n := verifPick("streamlen", 0, 1, 3, 4, 11, 12, 19, 20, 21, 30, 51, 52, 60, 83, 84, 85, 86, 87, 89, 90, 93, 94, 95, 96, 120, 157, 158, 160)
+	raw := verifBytes("stream", 160)
+	raw[84], raw[85] = 0, byte(verifPick("chunklen", 2, 6, 10))
+	raw[86], raw[88] = 4, 1
+	raw[90], raw[92] = 4, 1
+	verifAllocLimit(65536 + 160)
+	var c Certificate
+	_, err := c.ReadFrom(&c18Buf{b: raw[:n]})
+	if err != nil {
+		verifCover("error")
+	} else {
+		verifCover("parsed")
+	}
+}
